@@ -21,12 +21,14 @@
 (*                       call's variable, aligned with tables that belong  *)
 (*                       to the same arguments as the geometry returned,   *)
 (*                       and nothing else                                  *)
-(*   ReturnedNotMutated  no object returned earlier changes                *)
+(*   ReturnedNotMutated  no object returned earlier changes ("EarlierKept":*)
+(*                       a data conversion's object keeps its own values)  *)
+(*   FreshObject         no two calls return the same object               *)
 (***************************************************************************)
 EXTENDS Naturals, Sequences, FiniteSets, TLC
 
 (* ---- arguments ---------------------------------------------------------------- *)
-\* an event: [act, pe, proj, eng, project, cache, override, var, target]
+\* an event: [act, pe, proj, eng, project, cache, override, var, target, ri]   (ri: return_indices, PolyCollection only)
 \*   act in ToGdf ToPoly ToLine DataToGdf DataToPoly Edit ; eng = "-" for poly/line ; var = "-" for grid calls
 Kind(ev) == CASE ev.act \in {"ToGdf", "DataToGdf"} -> "gdf"
               [] ev.act \in {"ToPoly", "DataToPoly"} -> "poly"
@@ -57,24 +59,28 @@ IdealCols(ev) == IF IsData(ev) THEN { [ name |-> ColName(ev), var |-> ev.var, al
 
 (* ---- mechanism ------------------------------------------------------------------ *)
 MechIntended == [ gdfCmp |-> {"pe", "proj", "eng", "project"}, gdfReturned |-> "copy", gdfDataInto |-> "copy", sideTables |-> "cache_entry",
-                  polyCmp |-> {"pe", "proj"}, lineStore |-> {"pe", "proj"}, lineCmp |-> {"pe", "proj"}, lineReturned |-> "copy" ]
+                  polyCmp |-> {"pe", "proj"}, polyReturnOnIndices |-> "copy", lineStore |-> {"pe", "proj"}, lineCmp |-> {"pe", "proj"}, lineReturned |-> "copy" ]
 \* as read at /repo HEAD: lines store their projection (5278ad57), the data column goes into a copy of
 \* the frame (2b8af081), line collections are handed out as copies (fe3231b0), a cache hit re-publishes
 \* the side tables of the cached geometry (0313f2af), `project` is part of the GeoDataFrame key (3e766f04).
 \* Still as before: Grid.to_geodataframe hands out the cached frame itself (known finding C15-F7).
 MechObserved == [ gdfCmp |-> {"pe", "proj", "eng", "project"}, gdfReturned |-> "cached_object", gdfDataInto |-> "copy", sideTables |-> "cache_entry",
-                  polyCmp |-> {"pe", "proj"}, lineStore |-> {"pe", "proj"}, lineCmp |-> {"pe", "proj"}, lineReturned |-> "copy" ]
+                  polyCmp |-> {"pe", "proj"}, polyReturnOnIndices |-> "copy", lineStore |-> {"pe", "proj"}, lineCmp |-> {"pe", "proj"}, lineReturned |-> "copy" ]
 \* earlier mechanisms (each repaired by a commit; TLC shows that each breaks the clauses)
 MechLinesOld     == [ MechObserved EXCEPT !.lineStore = {"pe"} ]                 \* before 5278ad57
 MechDataInCache  == [ MechObserved EXCEPT !.gdfDataInto = "cached_frame" ]       \* before 2b8af081
 MechLineAliased  == [ MechObserved EXCEPT !.lineReturned = "cached_object" ]     \* before fe3231b0
 MechSideLast     == [ MechObserved EXCEPT !.sideTables = "last_compute" ]        \* before 0313f2af
 MechKeyNoProject == [ MechObserved EXCEPT !.gdfCmp = {"pe", "proj", "eng"} ]     \* before 3e766f04
+\* never in /repo: a cache hit with return_indices=True (which every data conversion is) hands out the cached
+\* PolyCollection itself, so the variable's array is written into the grid's own collection
+MechPolyCachedOnIndices == [ MechObserved EXCEPT !.polyReturnOnIndices = "cached" ]
 \* every repaired choice at once: used only to RANK generated histories (which ones any past mechanism broke)
 MechHistoric == [ MechObserved EXCEPT !.lineStore = {"pe"}, !.gdfDataInto = "cached_frame", !.lineReturned = "cached_object",
-                                      !.sideTables = "last_compute", !.gdfCmp = {"pe", "proj", "eng"} ]
+                                      !.sideTables = "last_compute", !.gdfCmp = {"pe", "proj", "eng"},
+                                      !.polyReturnOnIndices = "cached" ]
 \* single knobs turned to their intended value (used to explain a failure)
-Knobs == {"gdfCmp", "gdfReturned", "gdfDataInto", "sideTables", "lineReturned"}
+Knobs == {"gdfCmp", "gdfReturned", "gdfDataInto", "sideTables", "lineReturned", "polyReturnOnIndices"}
 Flip(M, kn) == [ M EXCEPT ![kn] = MechIntended[kn] ]
 
 (* ---- state ---------------------------------------------------------------------- *)
@@ -87,7 +93,7 @@ KeyHit(stored, ev, cmp) == \A f \in cmp : stored[f] = KeyOf(ev)[f]
 
 St0 == [ gdf  |-> [ present |-> FALSE, obj |-> 0, val |-> NoVal, key |-> NoKey, nn |-> NA2, am |-> NA ],
          gdfAm |-> NA,
-         poly |-> [ present |-> FALSE, val |-> NoVal, key |-> NoKey, corr |-> NA2, am |-> NA, nn |-> NA2 ],
+         poly |-> [ present |-> FALSE, obj |-> 0, val |-> NoVal, key |-> NoKey, corr |-> NA2, am |-> NA, nn |-> NA2 ],
          polyAm |-> NA, polyNn |-> NA2,
          line |-> [ present |-> FALSE, obj |-> 0, val |-> NoVal, key |-> NoKey ],
          heap |-> <<>>,        \* objects handed to the caller: [geom, cols, edited]
@@ -126,7 +132,13 @@ PolyStep(s, ev, M) ==
     IN IF ~hit /\ Refused(ev) THEN [ s EXCEPT !.ret = 0, !.raised = TRUE ]
        ELSE
        LET fresh  == [ geom |-> GeomTag(ev), cols |-> {}, edited |-> FALSE ]
-           base   == IF hit THEN s.poly.val ELSE fresh
+           \* does this call hand out the grid's own collection (rather than a deep copy of it)?
+           \* every data conversion asks for the indices (ri); ri does not change the geometry
+           own    == hit /\ ev.ri /\ M.polyReturnOnIndices = "cached"
+           cachedVal == IF s.poly.obj # 0 THEN s.heap[s.poly.obj] ELSE s.poly.val
+           base   == IF hit THEN cachedVal ELSE fresh
+           newObj == ~(own /\ s.poly.obj # 0)
+           r      == IF newObj THEN Len(s.heap) + 1 ELSE s.poly.obj
            polyAm1 == IF hit THEN s.polyAm ELSE AmVal(ev)         \* written by every computation
            polyNn1 == IF hit THEN s.polyNn ELSE NnVal(ev)
            entry  == M.sideTables = "cache_entry"
@@ -136,12 +148,14 @@ PolyStep(s, ev, M) ==
            al     == [ am |-> IF ev.pe = "exclude" THEN am ELSE NA, nn |-> nn,
                        corr |-> IF ev.pe = "split" THEN corr ELSE NA2 ]
            withData == IF IsData(ev) THEN [ base EXCEPT !.cols = { [ name |-> "arr", var |-> ev.var, al |-> al ] } ] ELSE base
+           heap1  == IF newObj THEN Append(s.heap, withData) ELSE [ s.heap EXCEPT ![r] = withData ]
            store  == ~hit /\ ev.cache
-           poly1  == IF store THEN [ present |-> TRUE, val |-> fresh, key |-> KeyOf(ev), corr |-> CorrVal(ev),
+           poly1  == IF store THEN [ present |-> TRUE, obj |-> 0, val |-> fresh, key |-> KeyOf(ev), corr |-> CorrVal(ev),
                                      am |-> AmVal(ev), nn |-> NnVal(ev) ]
+                     ELSE IF own /\ s.poly.obj = 0 THEN [ s.poly EXCEPT !.obj = r ]      \* the grid's collection reaches the caller now
                      ELSE s.poly
        IN [ s EXCEPT !.poly = poly1, !.polyAm = polyAm1, !.polyNn = polyNn1,
-                     !.heap = Append(s.heap, withData), !.ret = Len(s.heap) + 1, !.raised = FALSE ]
+                     !.heap = heap1, !.ret = r, !.raised = FALSE ]
 
 \* ---- LineCollection ----
 LineStep(s, ev, M) ==
@@ -176,6 +190,8 @@ BadOf(s, t, ev) ==
     \cup (IF r # 0 /\ t.heap[r].cols # IdealCols(ev) THEN {"DataOfThisCall"} ELSE {})
     \cup (IF \E j \in 1..Len(s.heap) : (Kind(ev) # "edit" \/ j # ev.target) /\ t.heap[j] # s.snap[j]
           THEN {"ReturnedNotMutated"} ELSE {})
+    \* no two calls hand out the same object (what one caller does to it would reach the other)
+    \cup (IF r # 0 /\ r <= Len(s.heap) THEN {"FreshObject"} ELSE {})
 
 Step(s, ev, M) ==
     LET t == Apply(s, ev, M) IN
